@@ -6,7 +6,13 @@ Property theorems about M-Sort (`DefconModel/NameSort.lean`, the executable mode
 Helper lemmas: `Lemmas/NameSort.lean`; spec-side definitions: `Spec/NameSort.lean`; the module
 constants of the code as regenerated on every check: `Gen/SortTables.lean`.
 
-Every theorem quantifies over ALL look-up functions (`env`: unicode, pseudo-unicode, category, script,
+Section 5 (round 3) is about M-Lookups (`DefconModel/NameLookups.lean`, the executable model of the look-ups themselves:
+`uniData.py` 178-407 and the functions of `unicodeTools.py` they use) and about the COMPOSED model `NameLookups.sortFont`
+(M-Sort over the look-ups M-Lookups derives from the font's glyph names, the glyphs' code points, the cmap and per-code-point
+facts of the Unicode database).  Helper lemmas: `Lemmas/NameLookups.lean`; spec side: `Spec/NameLookups.lean`; regenerated:
+`Gen/OpenClose.lean` (the open/close pair text and dicts), `Gen/SortCalls.lean` (who refers to what inside class UnicodeData).
+
+Every theorem of sections 1-4 quantifies over ALL look-up functions (`env`: unicode, pseudo-unicode, category, script,
 block, close relative, font membership, decomposition base, cmap), ALL name lists (duplicates, names the
 font does not have) and ALL descriptor lists (any length, any mix of the 10 public and 5 private types,
 ascending/descending, pseudo-unicodes on/off).
